@@ -1,4 +1,6 @@
 import Hls.Muxer.TimeTs
+import Hls.Muxer.TimeText
+import Hls.Muxer.TimeProv
 /-!
 # C03 — Playlist durations, target durations and date-times match the media
 
@@ -235,6 +237,40 @@ theorem c03_pdt {cfg : Cfg} {st0 : State} (h0 : start cfg = .ok st0) (hv : cfg.v
   simp only [Seg.key, Prod.mk.injEq] at hkk
   exact ⟨g', x, hg', hx, by rw [h3, hkk.2.2.1], by rw [h2, hkk.1], h1⟩
 
+/-- **Scope of finding F26, as a theorem.**  EXTINF is written with five decimals: `TextOf d q` says `q` (units of
+10 µs) is an admissible rendering of the nanosecond duration `d ≥ 0` (nearest multiple of 10 µs, a decimal tie either
+way — the envelope `Playlist.Codec.Valid.fmt_dur` of the playlist slice, C14).  A reader rounds the text half away
+from zero (`readerRound`).  That equals `roundSeconds d` — the value TARGETDURATION is computed from — for EVERY
+admissible `q` unless `d mod 1 s ∈ [0.499995 s, 0.5 s)` (`inF26Window`); strictly inside the window every admissible
+text rounds exactly one second higher; on its lower edge (a tie) both happen. -/
+theorem c03_f26_scope (d : Int) (hd : 0 ≤ d) :
+    (¬ inF26Window d → ∀ q, TextOf d q → readerRound q = roundSeconds d) ∧
+    (499995000 < d % 1000000000 → d % 1000000000 < 500000000 → ∀ q, TextOf d q → readerRound q = roundSeconds d + 1) ∧
+    (d % 1000000000 = 499995000 →
+      (∀ q, TextOf d q → readerRound q = roundSeconds d ∨ readerRound q = roundSeconds d + 1) ∧
+      (∃ q, TextOf d q ∧ readerRound q = roundSeconds d) ∧ (∃ q, TextOf d q ∧ readerRound q = roundSeconds d + 1)) ∧
+    (∃ q, TextOf d q) :=
+  ⟨fun hw _ h => text_round_eq hd h hw, fun h1 h2 _ h => text_round_up hd h h1 h2,
+   fun h1 => text_round_tie hd h1, ⟨_, textOf_exists d⟩⟩
+
+/-- **TARGETDURATION against the TEXT a reader sees.**  In every reachable state, for every listed entry of every
+stream with a non-negative duration `d`: whatever admissible 5-decimal text `q` is served for it, the reader's rounding
+of that text is at most TARGETDURATION whenever `d` is outside the F26 window `[x.499995 s, x.5 s)`, and never more
+than TARGETDURATION + 1 (the known finding F26: inside the window the text reads `x.50000`). -/
+theorem c03_target_text {cfg : Cfg} {st0 : State} (h0 : start cfg = .ok st0) (ops : List WriteOp)
+    (si : Nat) (hsi : si < st0.streams.length) :
+    ∀ e ∈ ((run st0 ops).stream si).segments, 0 ≤ e.duration → ∀ q, TextOf e.duration q →
+      (¬ inF26Window e.duration → readerRound q ≤ ((run st0 ops).stream si).targetDur) ∧
+      readerRound q ≤ ((run st0 ops).stream si).targetDur + 1 := by
+  intro e he hd q hq
+  have ht := c03_target_ge h0 ops si hsi e he
+  refine ⟨fun hw => by rw [text_round_eq hd hq hw]; exact ht, ?_⟩
+  by_cases hw : inF26Window e.duration
+  · by_cases hedge : e.duration % 1000000000 = 499995000
+    · rcases (text_round_tie hd hedge).1 q hq with h | h <;> rw [h] <;> omega
+    · rw [text_round_up hd hq (by unfold inF26Window at hw; omega) hw.2]; omega
+  · rw [text_round_eq hd hq hw]; omega
+
 /-- **MPEG-TS: segment start and date-time come from the unit that opens the segment.**  One successful `write` of
 an accepted H264 unit in a reachable state of an MPEG-TS muxer: if it creates the first segment or rotates the
 segments (the counter moves, see `C02.c02_cut_iff_due_ts_video` for when), the open segment afterwards has
@@ -267,6 +303,23 @@ theorem c03_pdt_ts {cfg : Cfg} {st0 : State} (h0 : start cfg = .ok st0) (hv : cf
     · rcases hopen with h | h
       · cases h
       · exact absurd h3.1 h
+
+/-- **MPEG-TS, step-free: every segment's start DTS and PROGRAM-DATE-TIME are those of one written unit.**  In every
+reachable state of an MPEG-TS muxer — for ANY results of the calls; the writes name tracks of the muxer — every listed
+segment and the open segment has `(startDTS, startNTP) = (tsStamp op, op.ntp)` for one write `op` of the run, where
+`tsStamp` is `toDur dts` of a video unit / `toDur pts` of an audio unit in the track's clock rate.  (`c03_pdt_ts`
+identifies the unit: it is the one whose write opened the segment.) -/
+theorem c03_pdt_ts_run {cfg : Cfg} {st0 : State} (h0 : start cfg = .ok st0) (hv : cfg.variant = .mpegts)
+    (ops : List WriteOp) (hin : Accept.InRange cfg ops = true) :
+    (∀ g ∈ listed (run st0 ops) 0, ∃ op ∈ ops, g.startDTS = tsStamp st0 op ∧ g.startNTP = op.ntp) ∧
+    (∀ o, ((run st0 ops).stream 0).nextSegment = some o → ∃ op ∈ ops, o.startDTS = tsStamp st0 op ∧ o.startNTP = op.ntp) := by
+  have hp := reach_Prov_ts h0 hv ops hin
+  have key : ∀ a b : Int, (a, b) ∈ tsPairs st0 ops → ∃ op ∈ ops, a = tsStamp st0 op ∧ b = op.ntp := by
+    intro a b hm
+    simp only [tsPairs, List.mem_map, Prod.mk.injEq] at hm
+    obtain ⟨op, hop, e1, e2⟩ := hm
+    exact ⟨op, hop, e1.symm, e2.symm⟩
+  exact ⟨fun g hg => key _ _ (hp.1 g hg), fun o ho => key _ _ (hp.2 o ho)⟩
 
 /-! ## Non-vacuity: a concrete Low-Latency muxer (H264 + AAC), rotations, a parameter change -/
 
@@ -312,6 +365,14 @@ example : ((run tsSt0 [vop 0 true 1, vop 1 false 0]).tcfg 0).codec = .h264 ∧
     Accepted (run tsSt0 [vop 0 true 1, vop 1 false 0]) (vop 2 true 0) ∧
     (write (run tsSt0 [vop 0 true 1, vop 1 false 0]) (vop 2 true 0)).2 = .ok ∧
     ((write (run tsSt0 [vop 0 true 1, vop 1 false 0]) (vop 2 true 0)).1.stream 0).nextSegmentID ≠
-      ((run tsSt0 [vop 0 true 1, vop 1 false 0]).stream 0).nextSegmentID := by decide
+      ((run tsSt0 [vop 0 true 1, vop 1 false 0]).stream 0).nextSegmentID ∧
+    Accept.InRange tsCfg [vop 0 true 1, vop 1 false 0, vop 2 true 0] = true ∧
+    (listed (run tsSt0 [vop 0 true 1, vop 1 false 0, vop 2 true 0]) 0).length = 1 := by decide
+
+/-- F26's window is inhabited and the theorem's other side too: 1.499999999 s reads `1.50000` (rounds to 2, while
+`roundSeconds` is 1); 1.499994999 s reads `1.49999` (rounds to 1) -/
+example : inF26Window 1499999999 ∧ TextOf 1499999999 150000 ∧ readerRound 150000 = 2 ∧ roundSeconds 1499999999 = 1 ∧
+    ¬ inF26Window 1499994999 ∧ TextOf 1499994999 149999 ∧ readerRound 149999 = 1 ∧ roundSeconds 1499994999 = 1 := by
+  unfold TextOf; decide
 
 end Hls.Props.C03
